@@ -463,54 +463,52 @@ class TermCtx:
                         self.cap_names.add(e["n"])
 
     def record_of(self, o):
-        """(record qualified name, {callee NTTP name -> term}) for an object name; (None, {}) if unknown."""
+        """(record qualified name, {callee NTTP name -> term}) for an object path; (None, {}) if unknown."""
         db = self.db
-        if db is None:
+        if db is None or not o:
             return None, {}
         if o == self.this_name:
             return self.func.get("record"), dict(self.nttp_map)
         if o in self.type_ctx:
             return self.type_ctx[o]
-        ty = None
-        ctx_rec = None
-        if o in self.obj_types:
-            ty, ctx_rec = self.obj_types[o]
-        elif o.startswith(self.this_name + "."):
-            # field of the receiver (one level)
-            fld = o[len(self.this_name) + 1:]
-            if "." not in fld and self.func.get("record"):
-                for rq in db.lineage(self.func["record"]):
-                    rec = db.record(rq)
-                    if not rec:
-                        continue
-                    for fd in rec["fields"]:
-                        if fd["n"] == fld:
-                            ty, ctx_rec = fd["ty"], rq
-        if ty is None:
+        parts = o.split(".")
+        # longest known prefix
+        cur = None
+        argtext = ""
+        rest = parts
+        if o.startswith(self.this_name + ".") or o == self.this_name:
+            n0 = len(self.this_name.split("."))
+            cur = self.func.get("record")
+            rest = parts[n0:]
+        elif parts[0] in self.obj_types:
+            ty, ctx_rec = self.obj_types[parts[0]]
+            r = db.resolve_type(ty, ctx_rec or self.func.get("record"))
+            if r is None:
+                return None, {}
+            cur, argtext = r
+            rest = parts[1:]
+        else:
             return None, {}
-        t = ty.replace("const ", " ").replace("&", " ").strip()
-        head = t.split("<")[0].strip()
-        simple = head.split("::")[-1]
-        cands = list(db.simple_rec.get(simple, []))
-        cands = [q for q in cands if "<" not in q] or cands
-        if not cands and ctx_rec:
-            rec = db.record(ctx_rec)
-            if rec:
-                if rec["n"] == simple:
-                    cands = [rec["q"]]
-                for al in rec.get("aliases", []):
-                    if al["n"] == simple:
-                        found = db._records_named_in(al["ty"], rec)
-                        if len(found) == 1:
-                            cands = found
-                            t = al["ty"]
-        if len(cands) != 1:
-            return None, {}
-        rq = cands[0]
+        for fld in rest:
+            found = None
+            for rq in db.lineage(cur) if cur else []:
+                rec = db.record(rq)
+                if not rec:
+                    continue
+                for fd in rec["fields"]:
+                    if fd["n"] == fld:
+                        found = (fd["ty"], rq)
+            if found is None:
+                return None, {}
+            r = db.resolve_type(found[0], found[1])
+            if r is None:
+                return None, {}
+            cur, argtext = r
+        rq = cur
         tmap = {}
-        rec = db.record(rq)
-        if rec and "<" in t:
-            args = split_targs(t[t.index("<") + 1:t.rindex(">")])
+        rec = db.record(rq) if rq else None
+        if rec and argtext:
+            args = split_targs(argtext)
             for tp, a in zip(rec.get("tparams", []), args):
                 if tp.get("k") == "nttp":
                     if a.isdigit():
@@ -781,11 +779,11 @@ def numeric_limit(q, which):
 
 
 def begin_of(o, ctx):
-    return ("p", c(0))
+    return ("p", c(0), o)
 
 
 def end_of(o, ctx):
-    return ("p", size_of(o, ctx))
+    return ("p", size_of(o, ctx), o)
 
 
 def size_of(o, ctx):
